@@ -685,8 +685,7 @@ def _derived(ctx, prog):
             and seqs[2] is ts and seqs[3] is ts and cnt == -1
         why = f"offsets {offs}, count n{cnt:+d}"
     if ok is None:
-        ctx.unrecognised("C08.7", f, f"speeds: form not recognised: {why}",
-                         key="C08.7:def:speeds")
+        ctx.undecidable("C08.7", f, f"speeds: form not recognised: {why}")
     else:
         ctx.ob("C08.7", f, ok,
                "speeds[k] = calc_speed(p_k, p_(k+1), t_k, t_(k+1)) for all "
